@@ -57,7 +57,7 @@ var vSchema = [][]vFld{
 	11: {{k: kSl, name: "DataPoints", elem: 10}},
 	12: {{k: kP, name: "AggregationTemporality"}, {k: kP, name: "IsMonotonic"}, {k: kSl, name: "DataPoints", elem: 10}},
 	13: {{k: kP, name: "AggregationTemporality"}, {k: kSl, name: "DataPoints", elem: 8}},
-	14: {{k: kP, name: "Name"}, {k: kP, name: "Description"}, {k: kP, name: "Unit"}, {k: kSl, name: "Metadata", elem: 1}, {k: kOne, name: "Type", alts: []int{11, 12, 13}, an: []string{"Gauge", "Sum", "Histogram"}}},
+	14: {{k: kP, name: "Name"}, {k: kP, name: "Description"}, {k: kP, name: "Unit"}, {k: kSl, name: "Metadata", elem: 1}, {k: kOne, name: "Type", alts: []int{11, 12, 13, 27, 32}, an: []string{"Gauge", "Sum", "Histogram", "ExponentialHistogram", "Summary"}}},
 	15: {{k: kPtr, elem: 14}},
 	16: {{k: kP, name: "Scope.Name"}, {k: kP, name: "Scope.Version"}, {k: kSl, name: "Scope.Attributes", elem: 1}, {k: kP, name: "Scope.DroppedAttributesCount"}, {k: kP, name: "SchemaUrl"}, {k: kSl, name: "Metrics", elem: 15}},
 	17: {{k: kPtr, elem: 16}},
@@ -68,10 +68,22 @@ var vSchema = [][]vFld{
 	22: {{k: kSl, elem: 8}},
 	23: {{k: kSl, elem: 6}},
 	24: {{k: kSl, elem: 10}},
+	25: {{k: kSl, name: "Attributes", elem: 1}, {k: kP, name: "StartTimestamp"}, {k: kP, name: "Timestamp"}, {k: kP, name: "Count"}, {k: kP, name: "Scale"}, {k: kP, name: "ZeroCount"},
+		{k: kP, name: "Positive.Offset"}, {k: kPs, name: "Positive.BucketCounts"}, {k: kP, name: "Negative.Offset"}, {k: kPs, name: "Negative.BucketCounts"},
+		{k: kSl, name: "Exemplars", elem: 6}, {k: kP, name: "Flags"}, {k: kI, name: "Sum", an: []string{"opt"}}, {k: kI, name: "Min", an: []string{"opt"}}, {k: kI, name: "Max", an: []string{"opt"}}, {k: kP, name: "ZeroThreshold"}},
+	26: {{k: kPtr, elem: 25}},
+	27: {{k: kP, name: "AggregationTemporality"}, {k: kSl, name: "DataPoints", elem: 26}},
+	28: {{k: kP, name: "Quantile"}, {k: kP, name: "Value"}},
+	29: {{k: kPtr, elem: 28}},
+	30: {{k: kSl, name: "Attributes", elem: 1}, {k: kP, name: "StartTimestamp"}, {k: kP, name: "Timestamp"}, {k: kP, name: "Count"}, {k: kP, name: "Sum"}, {k: kSl, name: "QuantileValues", elem: 29}, {k: kP, name: "Flags"}},
+	31: {{k: kPtr, elem: 30}},
+	32: {{k: kSl, name: "DataPoints", elem: 31}},
+	33: {{k: kSl, elem: 26}},
+	34: {{k: kSl, elem: 31}},
 }
 
 // struct rows that have CopyTo (and MoveTo, except Metrics)
-var vStructRows = []int{6, 7, 9, 11, 12, 13, 14, 16, 18, 20}
+var vStructRows = []int{6, 7, 9, 11, 12, 13, 14, 16, 18, 20, 25, 27, 28, 30, 32}
 
 func vNewRoot(n int) any {
 	switch n {
@@ -99,11 +111,19 @@ func vNewRoot(n int) any {
 		return NewExemplarSlice()
 	case 24:
 		return NewNumberDataPointSlice()
+	case 25:
+		return NewExponentialHistogramDataPoint()
+	case 30:
+		return NewSummaryDataPoint()
+	case 33:
+		return NewExponentialHistogramDataPointSlice()
+	case 34:
+		return NewSummaryDataPointSlice()
 	}
 	panic("no root " + strconv.Itoa(n))
 }
 
-var vRootTypes = []int{20, 21, 22, 23, 24, 14, 7, 9, 2, 3, 0, 4}
+var vRootTypes = []int{20, 21, 22, 23, 24, 14, 7, 9, 2, 3, 0, 4, 25, 30, 33, 34}
 
 func vStateOf(w any) *internal.State {
 	switch x := w.(type) {
@@ -122,6 +142,14 @@ func vStateOf(w any) *internal.State {
 	case ExemplarSlice:
 		return x.state
 	case NumberDataPointSlice:
+		return x.state
+	case ExponentialHistogramDataPoint:
+		return x.state
+	case SummaryDataPoint:
+		return x.state
+	case ExponentialHistogramDataPointSlice:
+		return x.state
+	case SummaryDataPointSlice:
 		return x.state
 	case pcommon.Map:
 		return internal.GetMapState(internal.Map(x))
@@ -149,6 +177,12 @@ func vCap(w any) int {
 	case ScopeMetricsSlice:
 		return cap(*x.orig)
 	case ResourceMetricsSlice:
+		return cap(*x.orig)
+	case ExponentialHistogramDataPointSlice:
+		return cap(*x.orig)
+	case SummaryDataPointSlice:
+		return cap(*x.orig)
+	case SummaryDataPointValueAtQuantileSlice:
 		return cap(*x.orig)
 	case pcommon.Map:
 		return cap(*internal.GetOrigMap(internal.Map(x)))
@@ -749,9 +783,9 @@ func (g *vProg) plan() *vPlan {
 							}
 						}}
 				}
-				if q.n == 7 && rng.Intn(2) == 0 { // histogram point: set one of the optional fields (regression shape of ad68bfbbc)
-					j := 8 + rng.Intn(3)
-					o, nm := vOwner(q.node, vSchema[7][j].name)
+				if opt := vOptFields(q.n); len(opt) > 0 && rng.Intn(2) == 0 { // (exponential) histogram point: set one of the optional fields (regression shape of ad68bfbbc)
+					j := opt[rng.Intn(len(opt))]
+					o, nm := vOwner(q.node, vSchema[q.n][j].name)
 					z := int64(rng.Intn(9) + 1)
 					return &vPlan{term: fmt.Sprintf("OLocal %d %s (LSetI %d 1 %s)", q.h, vPathTerm(q.p), j, vZ(z)), name: "set-optional", writes: []int{q.h},
 						run: func() { vCall(o, "Set"+nm, float64(z)) }}
@@ -1120,6 +1154,16 @@ func (g *vProg) planSetP(pos vPos, j int, z int64) *vPlan {
 	return &vPlan{term: fmt.Sprintf("OLocal %d %s (LSetP %d %s)", pos.h, vPathTerm(pos.p), j, vZ(z)), name: "set-prim", writes: []int{pos.h}, run: set}
 }
 
+func vOptFields(n int) []int {
+	var r []int
+	for j, f := range vSchema[n] {
+		if f.k == kI && f.an[0] == "opt" {
+			r = append(r, j)
+		}
+	}
+	return r
+}
+
 func vReadKey(n int, e any, k int) int64 {
 	f := vSchema[n][k]
 	o, nm := vOwner(e, f.name)
@@ -1162,6 +1206,16 @@ func vZeroOf(n int) any {
 		return NewScopeMetrics()
 	case 18:
 		return NewResourceMetrics()
+	case 25:
+		return NewExponentialHistogramDataPoint()
+	case 27:
+		return NewExponentialHistogram()
+	case 28:
+		return NewSummaryDataPointValueAtQuantile()
+	case 30:
+		return NewSummaryDataPoint()
+	case 32:
+		return NewSummary()
 	}
 	return NewMetrics()
 }
@@ -1517,7 +1571,7 @@ func TestVerifC07(t *testing.T) {
 		if i%3 == 0 {
 			// scenario prefix: two slices of one type, both populated, the second one filtered; the
 			// generator then copies a longer slice into the filtered one (see plan: hot) and goes on at random
-			tt := []int{21, 22, 22, 23, 24, 24, 2, 3, 3}[rng.Intn(9)]
+			tt := []int{21, 22, 22, 23, 24, 24, 2, 3, 3, 33, 34}[rng.Intn(11)]
 			g.script = []vScript{{newT: tt}, {newT: tt}}
 			mapTag := 0
 			if tt == 2 && rng.Intn(3) > 0 {
